@@ -72,6 +72,15 @@ CONTRACTS.append(Contract(
     note="every position lies in exactly one [b[i], b[i+1]): boundaries tile the range (existence; uniqueness is monotonicity)",
 ))
 
+_ID = lambda m: f"(({m}) * c + (({m}) if ({m}) < r else r))"
+CONTRACTS.append(Contract(
+    MODULE, "lemma_ideal_mono",
+    params={"a": T.Int, "b": T.Int, "c": T.Int, "r": T.Int},
+    requires=["0 <= a", "a <= b", "c >= 0"],
+    ensures=[("monotone", f"{_ID('a')} <= {_ID('b')}"), ("strict", f"implies(a < b, {_ID('a')} + c <= {_ID('b')})")],
+    note="nonlinear ((b - a) * c >= 0): discharged in isolation; m*c + min(m, r) is the sum of the first m chunk sizes c + [j < r]",
+))
+
 LEMMA_FUNCS = {c.name: FuncVal(c.name, "contract", c) for c in CONTRACTS}
 
 
